@@ -129,8 +129,8 @@ func (s *sim) opWeights() []weighted {
 	}
 	w := map[string]int{
 		"create": 22, "markcomplete": 12, "open": 6, "openwrite": 3, "stat": 2,
-		"delete": 3, "ban": 5, "unban": 4, "setmd": 7, "getmd": 2, "delmd": 3,
-		"listmd": 1, "writeatmd": 4, "clean": 3, "createbad": 2,
+		"delete": 3, "ban": 5, "unban": 4, "setmd": 10, "getmd": 2, "delmd": 3,
+		"listmd": 1, "writeatmd": 5, "clean": 3, "createbad": 2,
 	}
 	if incomplete >= 1 {
 		w["markcomplete"] += 8 * incomplete
@@ -257,6 +257,16 @@ func (s *sim) genOp(t *rapid.T) Op {
 			op.Key = s.pick(t, func(k string, b *mblob, ok bool) bool { return ok })
 		} else {
 			op.Key = s.pick(t, func(k string, b *mblob, ok bool) bool { return ok && len(b.md) > 0 })
+		}
+		if b, ok := m.blobs[keyName(op.Key)]; ok && name != "setmd" && len(b.md) > 0 && unif(t, "mdguided", 10) < 8 {
+			// aim at a metadata entry the blob is predicted to have
+			var have []int
+			for i, sfx := range mdSuffixes {
+				if _, ok := b.md[sfx]; ok {
+					have = append(have, i)
+				}
+			}
+			op.MD = have[unif(t, "mdhave", len(have))]
 		}
 		op.Scope = genScope(t)
 		if name == "setmd" || name == "writeatmd" {
